@@ -1,16 +1,37 @@
 (* C19: the instances, re-checked by computation on the regenerated table. *)
 From Coq Require Import List String Bool.
-From Mamba Require Import Gen.Effects Effects.Closure.
+From Mamba Require Import Gen.Effects Effects.Skel Effects.Closure Effects.Flow Effects.Chan.
 Import ListNotations.
 Open Scope string_scope.
+
+Definition is_nil {A} (l : list A) : bool := match l with [] => true | _ => false end.
+
+Lemma is_nil_eq {A} (l : list A) : is_nil l = true -> l = [].
+Proof. destruct l; [reflexivity | discriminate]. Qed.
 
 (* the translator found the shapes it expects *)
 Lemma translation_ok : translation_failed_effects = false.
 Proof. vm_compute. reflexivity. Qed.
 
+(* (0) fail closed: the translator understood every construct of every function (no method
+   values, reflection, unsafe, cgo, linkname, bodiless or generic functions, unrootable
+   assignment targets).  A function with unknown effects breaks this lemma and with it every
+   theorem below that is stated through [understood]. *)
+Lemma no_unknown_b : forallb (fun f => is_nil (unknown f)) funcs = true.
+Proof. vm_compute. reflexivity. Qed.
+
+(* callbacks are called by these functions only (user supplied prune / restriction / weight
+   functions: the documented assumption of C19 is about them) *)
+Definition callback_users : list string :=
+  ["itertools.PermutationsByPatternIterator.Next"; "itertools.RestrictedPrefixPermutationIterator.Next";
+   "itertools.RestrictedPrefixProductIterator.Next"; "itertools.TopologicalSortIterator.Next";
+   "search.GraphIterator.Next"; "tsp.LIB"].
+Lemma callbacks_b :
+  forallb (fun f => is_nil (dyncalls f) || mem (fname f) callback_users) funcs = true.
+Proof. vm_compute. reflexivity. Qed.
+
 (* (i) no function of the repository assigns a package-level variable, and none starts a goroutine *)
-Lemma no_global_writes_b :
-  forallb (fun f => match gwrites f with [] => true | _ => false end) funcs = true.
+Lemma no_global_writes_b : forallb (fun f => is_nil (gwrites f)) funcs = true.
 Proof. vm_compute. reflexivity. Qed.
 
 Lemma no_go_statements_b : forallb (fun f => Nat.eqb (gostmts f) 0) funcs = true.
@@ -25,13 +46,17 @@ Lemma chan_ops_b :
   forallb (fun f => orb (Nat.eqb (chanops f) 0) (String.eqb (fname f) "graph.AllMaximalCliques")) funcs = true.
 Proof. vm_compute. reflexivity. Qed.
 
-(* (ii) read-only queries.  Edges: the calls that pass on a possibly shared value (scalls);
-   a call on fresh local values cannot write into the caller's shared value because, by (i),
-   there is no other channel than the arguments. *)
+(* (ii) read-only queries, by the types written.  Edges: the calls that pass on a possibly
+   shared value (scalls); a call on fresh local values cannot write into the caller's shared
+   value because, by (i), there is no other channel than the arguments.  Every member of a
+   closure must also be free of callbacks, go statements and channel operations. *)
+Definition quiet_fn (f : finfo) : bool :=
+  is_nil (unknown f) && is_nil (dyncalls f) && is_nil (gwrites f) && Nat.eqb (gostmts f) 0 && Nat.eqb (chanops f) 0.
+Definition readonly_fn (forbidden : list string) (f : finfo) : bool := no_swrite_of forbidden f && quiet_fn f.
+
 Definition dawg_queries : list string :=
   ["dawg.Dawg.Lookup"; "dawg.Dawg.Search"; "dawg.Dawg.NumberOfWords"; "dawg.Dawg.GobEncode"].
-Definition dawg_types : list string :=
-  ["dawg.Dawg"; "append:dawg.Dawg"; "append:[]*github.com/Tom-Johnston/mamba/dawg.Dawg"].
+Definition dawg_types : list string := ["dawg.Dawg"; "append:dawg.Dawg"; "dawg.Builder"; "append:dawg.Builder"].
 Definition dawg_closure : list string := Eval vm_compute in grow funcs scalls (List.length funcs) dawg_queries.
 
 Lemma dawg_roots_in : forallb (fun r => mem r dawg_closure) dawg_queries = true.
@@ -39,17 +64,18 @@ Proof. vm_compute. reflexivity. Qed.
 Lemma dawg_closed : closed funcs scalls dawg_closure = true.
 Proof. vm_compute. reflexivity. Qed.
 Lemma dawg_readonly_b :
-  forallb (fun n => match lookup funcs n with Some info => no_swrite_of dawg_types info | None => false end)
+  forallb (fun n => match lookup funcs n with Some info => readonly_fn dawg_types info | None => false end)
           dawg_closure = true.
 Proof. vm_compute. reflexivity. Qed.
 
+Definition graph_reps : list string := ["DenseGraph"; "SparseGraph"; "complement"; "inducedSubgraph"].
 Definition graph_observers : list string :=
-  flat_map (fun t => map (fun m => "graph." ++ t ++ "." ++ m) ["N"; "M"; "IsEdge"; "Neighbours"; "Degrees"])
-           ["DenseGraph"; "SparseGraph"; "complement"; "inducedSubgraph"].
+  flat_map (fun t => map (fun m => "graph." ++ t ++ "." ++ m) ["N"; "M"; "IsEdge"; "Neighbours"; "Degrees"]) graph_reps.
 Definition graph_types : list string :=
   ["graph.DenseGraph"; "graph.SparseGraph"; "graph.complement"; "graph.inducedSubgraph"; "graph.Graph";
    "sortints.SortedInts"; "[]int"; "[]byte";
-   "append:graph.DenseGraph"; "append:graph.SparseGraph"; "append:sortints.SortedInts"; "append:[]int"; "append:[]byte"].
+   "append:graph.DenseGraph"; "append:graph.SparseGraph"; "append:graph.complement"; "append:graph.inducedSubgraph";
+   "append:sortints.SortedInts"; "append:[]int"; "append:[]byte"].
 Definition graph_closure : list string := Eval vm_compute in grow funcs scalls (List.length funcs) graph_observers.
 
 Lemma graph_roots_in : forallb (fun r => mem r graph_closure) graph_observers = true.
@@ -57,43 +83,140 @@ Proof. vm_compute. reflexivity. Qed.
 Lemma graph_closed : closed funcs scalls graph_closure = true.
 Proof. vm_compute. reflexivity. Qed.
 Lemma graph_readonly_b :
-  forallb (fun n => match lookup funcs n with Some info => no_swrite_of graph_types info | None => false end)
+  forallb (fun n => match lookup funcs n with Some info => readonly_fn graph_types info | None => false end)
           graph_closure = true.
 Proof. vm_compute. reflexivity. Qed.
 
 Definition comb_queries : list string :=
   ["comb.Coeff"; "comb.CoeffUint64"; "comb.Coeffs"; "comb.Rank"; "comb.Unrank"].
 Definition comb_closure : list string := Eval vm_compute in grow funcs calls (List.length funcs) comb_queries.
+Definition pure_fn (f : finfo) : bool := is_nil (swrites f) && is_nil (dwrites f) && quiet_fn f.
 Lemma comb_roots_in : forallb (fun r => mem r comb_closure) comb_queries = true.
 Proof. vm_compute. reflexivity. Qed.
 Lemma comb_closed : closed funcs calls comb_closure = true.
 Proof. vm_compute. reflexivity. Qed.
 Lemma comb_pure_b :
-  forallb (fun n => match lookup funcs n with
-                    | Some info => match gwrites info, swrites info with [], [] => true | _, _ => false end
-                    | None => false end) comb_closure = true.
+  forallb (fun n => match lookup funcs n with Some info => pure_fn info | None => false end) comb_closure = true.
 Proof. vm_compute. reflexivity. Qed.
 
-(* the lifted statements *)
+(* (iv) roots: which receiver / parameter / package-level variable may a function write
+   through, transitively over the calls (Effects/Flow.v) *)
+Definition W : wtab := Eval vm_compute in wcompute funcs.
+
+Lemma W_closed : wclosed funcs W = true.
+Proof. vm_compute. reflexivity. Qed.
+
+Definition is_global_root (r : string) : bool := String.prefix "g:" r.
+
+Lemma W_no_globals_b : forallb (fun p => forallb (fun r => negb (is_global_root r)) (snd p)) W = true.
+Proof. vm_compute. reflexivity. Qed.
+
+(* exported functions write through their receiver, through values they allocated themselves,
+   and through the following parameters only.  Documented in the API: *)
+Definition documented_param_writes : list (string * string) :=
+  [ ("dawg.Dawg.Search", "p0")                      (* the searcher: its own state is advanced *)
+  ; ("disjoint.Set.FindBuffered", "p1")             (* the caller's scratch buffer *)
+  ; ("disjoint.Set.UnionBuffered", "p2")            (* the caller's scratch buffer *)
+  ; ("graph.CanonicalIsomorphAllocated", "p3")      (* op: "op, storage and options may be modified" *)
+  ; ("graph.CanonicalIsomorphAllocated", "p4")      (* storage *)
+  ; ("graph.CanonicalIsomorphAllocated", "p5")      (* options *)
+  ; ("graph.Contract", "p0")                        (* edits the EditableGraph in place *)
+  ; ("graph.SplitEdge", "p0")                       (* edits the EditableGraph in place *)
+  ; ("ints.Add", "p0"); ("ints.Reverse", "p0"); ("ints.Sort", "p0")   (* in place on the slice *)
+  ; ("search.GraphIterator.Save", "p0")             (* the io.Writer *)
+  ; ("search.Load", "p0")                           (* the io.Reader *)
+  ; ("tsp.LIB", "p0")                               (* the io.Writer *)
+  (* not real writes: the parameter is rebound to a fresh copy before it is written
+     (x = tmp in Add; neighbourhoods = make(...) when nil in NewSparse); the analysis is
+     flow-insensitive and cannot see that *)
+  ; ("sortints.SortedInts.Add", "p0")
+  ; ("graph.NewSparse", "p1") ].
+
+Definition pair_mem (f r : string) (l : list (string * string)) : bool :=
+  existsb (fun p => String.eqb (fst p) f && String.eqb (snd p) r) l.
+
+Definition exported_ok (f r : string) : bool :=
+  match lookup funcs f with
+  | Some info => negb (fexported info) || String.eqb r "recv" || pair_mem f r documented_param_writes
+  | None => false
+  end.
+
+Lemma W_exported_b : forallb (fun p => forallb (exported_ok (fst p)) (snd p)) W = true.
+Proof. vm_compute. reflexivity. Qed.
+
+(* the read-only queries the property names, with the roots they may write through *)
+Definition query_spec : list (string * list string) :=
+  [("dawg.Dawg.Lookup", []); ("dawg.Dawg.Search", ["p0"]); ("dawg.Dawg.NumberOfWords", []); ("dawg.Dawg.GobEncode", [])]
+  ++ map (fun q => (q, [])) graph_observers
+  ++ map (fun q => (q, [])) comb_queries
+  (* searcher queries and the other read-only API on shared values *)
+  ++ map (fun q => (q, []))
+       ["dawg.PatternSearcher.AllowStep"; "dawg.PatternSearcher.AllowWord"; "dawg.PatternSearcher.Chosen";
+        "dawg.AnagramSearcher.AllowStep"; "dawg.AnagramSearcher.AllowWord"; "dawg.AnagramSearcher.Chosen";
+        "graph.Graph6Encode"; "graph.Sparse6Encode"; "graph.MulticodeEncode"; "graph.AdjacencyMatrixEncode"; "graph.PruferEncode";
+        "graph.CanonicalIsomorph"; "graph.CanonicalIsomorphFull"; "graph.AllMaximalCliques"; "graph.CliqueNumber";
+        "graph.IndependenceNumber"; "graph.ChromaticNumber"; "graph.ChromaticIndex"; "graph.ChromaticPolynomial";
+        "graph.GreedyColor"; "graph.IsKColorable"; "graph.IsProperColouring"; "graph.IsPlanar"; "graph.Girth";
+        "graph.Diameter"; "graph.Radius"; "graph.Distance"; "graph.Eccentricity"; "graph.Degeneracy";
+        "graph.ConnectedComponent"; "graph.ConnectedComponents"; "graph.BiconnectedComponents";
+        "graph.NumberOfCycles"; "graph.NumberOfInducedCycles"; "graph.NumberOfInducedPaths";
+        "graph.MaxDegree"; "graph.MinDegree"; "graph.Equal"; "graph.Complement"; "graph.ComplementDense";
+        "graph.InducedSubgraph"; "graph.LineGraphDense"; "graph.RandomMaximalClique";
+        "graph.DenseGraph.Copy"; "graph.DenseGraph.InducedSubgraph"; "graph.SparseGraph.Copy"; "graph.SparseGraph.InducedSubgraph";
+        "sortints.Union"; "sortints.Intersection"; "sortints.SetMinus"; "sortints.XOR"; "sortints.IntersectionSize";
+        "sortints.Complement"; "sortints.ContainsSorted"; "sortints.ContainsSingle"; "sortints.NewSortedInts";
+        "ints.Equal"; "ints.Compare"; "ints.HasPrefix"; "ints.Max"; "ints.Min"; "ints.Sum";
+        "disjoint.Set.Roots";
+        "search.GraphIterator.Value"; "itertools.CombinationIterator.Value"; "itertools.PermutationIterator.Value";
+        "itertools.ProductIterator.Value"; "itertools.PartitionIterator.Value"; "itertools.IntegerPartitionIterator.Value"].
+
+Definition query_ok (q : string * list string) : bool :=
+  match lookup funcs (fst q) with
+  | Some _ => forallb (fun r => mem r (snd q)) (wget W (fst q))
+  | None => false
+  end.
+
+Lemma queries_b : forallb query_ok query_spec = true.
+Proof. vm_compute. reflexivity. Qed.
+
+(* (v) the channel *)
+Lemma chanskels_b :
+  forallb (fun t => match t with (f, _, dn, body) => String.eqb f "graph.AllMaximalCliques" && check_once dn body end)
+          chanskels = true.
+Proof. vm_compute. reflexivity. Qed.
+
+(* ------------------------------------------------------------------ the lifted statements *)
+Theorem all_understood : forall f, In f funcs -> unknown f = [].
+Proof.
+  intros f Hf. pose proof no_unknown_b as A. rewrite forallb_forall in A. now apply is_nil_eq, A.
+Qed.
+
+Theorem callbacks_only_in : forall f, In f funcs -> dyncalls f <> [] -> In (fname f) callback_users.
+Proof.
+  intros f Hf Hd. pose proof callbacks_b as A. rewrite forallb_forall in A. specialize (A f Hf).
+  apply orb_true_iff in A. destruct A as [A|A].
+  - apply is_nil_eq in A. contradiction.
+  - now apply mem_In.
+Qed.
+
 Theorem no_global_writes : forall f, In f funcs -> gwrites f = [] /\ gostmts f = 0.
 Proof.
   intros f Hf. pose proof no_global_writes_b as A. pose proof no_go_statements_b as B.
   rewrite forallb_forall in A, B. specialize (A f Hf). specialize (B f Hf). split.
-  - destruct (gwrites f); [reflexivity | discriminate].
+  - now apply is_nil_eq.
   - now apply PeanoNat.Nat.eqb_eq.
 Qed.
 
 Theorem dawg_queries_readonly : forall g, Reach funcs scalls dawg_queries g ->
-  exists info, lookup funcs g = Some info /\ no_swrite_of dawg_types info = true.
+  exists info, lookup funcs g = Some info /\ readonly_fn dawg_types info = true.
 Proof. exact (reach_all funcs scalls dawg_queries dawg_closure _ dawg_roots_in dawg_closed dawg_readonly_b). Qed.
 
 Theorem graph_observers_readonly : forall g, Reach funcs scalls graph_observers g ->
-  exists info, lookup funcs g = Some info /\ no_swrite_of graph_types info = true.
+  exists info, lookup funcs g = Some info /\ readonly_fn graph_types info = true.
 Proof. exact (reach_all funcs scalls graph_observers graph_closure _ graph_roots_in graph_closed graph_readonly_b). Qed.
 
 Theorem comb_functions_pure : forall g, Reach funcs calls comb_queries g ->
-  exists info, lookup funcs g = Some info /\
-    match gwrites info, swrites info with [], [] => true | _, _ => false end = true.
+  exists info, lookup funcs g = Some info /\ pure_fn info = true.
 Proof. exact (reach_all funcs calls comb_queries comb_closure _ comb_roots_in comb_closed comb_pure_b). Qed.
 
 Theorem channels_only_in_cliques : forall f, In f funcs -> chanops f <> 0 -> fname f = "graph.AllMaximalCliques".
@@ -102,4 +225,55 @@ Proof.
   apply orb_true_iff in A. destruct A as [A|A].
   - apply PeanoNat.Nat.eqb_eq in A. contradiction.
   - now apply String.eqb_eq.
+Qed.
+
+(* no function writes, even through a chain of calls, through a package-level variable or a
+   local alias of one *)
+Theorem no_deep_global_writes : forall f r, MayWrite funcs f r -> is_global_root r = false.
+Proof.
+  intros f r H.
+  pose proof (maywrite_all funcs W (fun _ r => negb (is_global_root r)) W_closed W_no_globals_b f r H) as A.
+  now apply negb_true_iff.
+Qed.
+
+(* an exported function writes only through its receiver or a documented parameter *)
+Theorem exported_writes_documented : forall f info r,
+  lookup funcs f = Some info -> fexported info = true -> MayWrite funcs f r ->
+  r = "recv" \/ In (f, r) documented_param_writes.
+Proof.
+  intros f info r Hl He H.
+  pose proof (maywrite_all funcs W exported_ok W_closed W_exported_b f r H) as A.
+  unfold exported_ok in A. rewrite Hl, He in A. cbn [negb orb] in A.
+  apply orb_true_iff in A. destruct A as [A|A].
+  - left. now apply String.eqb_eq.
+  - right. unfold pair_mem in A. apply existsb_exists in A. destruct A as ([f' r'] & Hin & E).
+    cbn [fst snd] in E. apply andb_true_iff in E. destruct E as [E1 E2].
+    apply String.eqb_eq in E1, E2. now subst.
+Qed.
+
+(* a query writes through nothing but the roots listed for it (never its receiver) *)
+Theorem queries_write_nothing_shared : forall q allowed r,
+  In (q, allowed) query_spec -> MayWrite funcs q r -> In r allowed.
+Proof.
+  intros q allowed r Hq H. pose proof queries_b as A. rewrite forallb_forall in A.
+  specialize (A _ Hq). unfold query_ok in A. cbn [fst snd] in A.
+  destruct (lookup funcs q); [|discriminate].
+  rewrite forallb_forall in A. apply mem_In. apply A.
+  exact (wclosed_sound funcs W W_closed q r H).
+Qed.
+
+Lemma query_spec_no_recv : forallb (fun q => negb (mem "recv" (snd q))) query_spec = true.
+Proof. vm_compute. reflexivity. Qed.
+
+(* every function with a channel parameter is AllMaximalCliques, and on every path of its body
+   that ends normally the channel is closed exactly once and nothing is sent after the close *)
+Theorem channel_closed_once : forall f p dn body, In (f, p, dn, body) chanskels ->
+  f = "graph.AllMaximalCliques" /\
+  forall tr e, Exec body tr e -> e = ENormal \/ e = EReturn ->
+    closes (tr ++ repeat EvClose dn) = 1 /\ no_send_after_close (tr ++ repeat EvClose dn).
+Proof.
+  intros f p dn body Hin. pose proof chanskels_b as A. rewrite forallb_forall in A.
+  specialize (A _ Hin). cbn beta iota in A. apply andb_true_iff in A. destruct A as [A1 A2]. split.
+  - now apply String.eqb_eq.
+  - intros tr e HE He. apply closed_means. exact (check_once_sound dn body A2 tr e HE He).
 Qed.
